@@ -274,6 +274,21 @@ def _hess(ctx, p, rng):
         if not ok:
             ctx.violation('hess_vec:value', {'N': N, 'i': i, 'got': float(Hv[i]), 'want': float(ref)}); return
     ctx.ok('hess_vec', ('hv', N, p['point'], style))
+    # directions of another magnitude than the unit vectors: H v is linear in v, so H (c v) / c must be as accurate as H v - measured
+    # against sum_j |H_ij| |v_j| (the scale of the product itself, not that of the interpolation formula behind it)
+    for c in (1e-6, 1e6):
+        try:
+            Xc = UTPM.init_hess_vec(np.asarray(x, dtype=float), v * c)
+            Hc = np.asarray(UTPM.extract_hess_vec(N, PP.evaluate(algopy, [poly], Xc, style)))
+        except Exception as e:
+            ctx.violation('hess_vec:scaled-direction:raises', {'N': N, 'scale': c, 'error': repr(e)[:200]}); return
+        for i in range(N):
+            ref = sum(Hq[i][j](xq) * Fraction(float(v[j] * c)) for j in range(N))
+            sc = sum(Hq[i][j].absval(xq) * abs(Fraction(float(v[j] * c))) for j in range(N)) + sum(Hq[a][b].absval(xq) for a in range(N) for b in range(N)) * Fraction(float(np.max(np.abs(v)) * c)) / 1000
+            ok, e = _close(Hc[i], ref, sc, 1e-9)
+            if not ok:
+                ctx.violation('hess_vec:direction-far-from-unit-size:accuracy', {'N': N, 'i': i, 'scale_of_v': c, 'got': float(Hc[i]), 'want': float(ref), 'error_over_scale': e}); return
+    ctx.ok('hess_vec', ('hv-scaled', N, p['point']))
 
 
 def _tensor(ctx, p, rng):
